@@ -63,6 +63,19 @@ def run(p, xs, resets=(), seed=0):
     X = np.array(xs, dtype=float)
     from .containers import feeder_of
     feeder = feeder_of(p, "array2d")
+    nb = None
+    if p.get("neighbour"):
+        # a second PCACD of the same configuration on a smaller window, living next to the observed one on an unrelated stream whose level
+        # jumps every few windows (so it rebuilds its reference again and again): what ONE detector reports is a function of what IT was given
+        from .core import Neighbour
+        Wn = max(8, W // 2 + 3)
+        cnt = [0]
+
+        def feed(o, u, d=X.shape[1]):
+            cnt[0] += 1
+            o.update(np.array([[40.0 * ((u * (j + 3)) % 1) + 300.0 * ((cnt[0] // (3 * Wn)) % 2) for j in range(d)]]))
+        nb = Neighbour(PCACD(window_size=Wn, ev_threshold=p["ev_threshold"], delta=p["delta"], divergence_metric=p["divergence_metric"],
+                             sample_period=p["sample_period"], online_scaling=p["online_scaling"]), feed, seed)
     ev = []
     # the harness mirrors the documented protocol only to know WHICH ranges to hand to the kernel; the
     # specification re-derives these ranges and rejects the trace if they differ
@@ -75,6 +88,8 @@ def run(p, xs, resets=(), seed=0):
             det.reset()
             ev.append({"op": "reset", "total": int(det.total_samples), "since": int(det.samples_since_reset), "state": st(det.drift_state),
                        "npcs": 0, "obs": "NA", "k": {"npcs": 0, "score": "0.0", "ref": none, "build": none, "test": none}})
+        if nb:
+            nb.step()
         np.random.seed((seed + t) % (2 ** 32))
         err = None
         try:
